@@ -1,5 +1,24 @@
+import Driver.C01
+import Driver.C02
+import Driver.C03
+import Driver.C04
+import Driver.C05
 import Driver.C06
-/- tinsdriver <mode> <area>: reads operation lines on stdin, writes one result line per op -/
+import Driver.C07
+import Driver.C08
+import Driver.C09
+import Driver.C10
+import Driver.C11
+import Driver.C12
+import Driver.C13
+import Driver.C14
+import Driver.C15
+import Driver.C16
+import Driver.C17
+import Driver.C18
+import Driver.C19
+/- tinsdriver <mode> <area>: reads operation lines on stdin, writes one result line per op.
+   Every area module Driver/Cxx.lean exports `step`, `initModel`, `specStep`, `initSpec`. -/
 open Driver
 
 partial def loop {σ} (h : IO.FS.Stream) (out : IO.FS.Stream) (step : σ → String → σ × String) (s : σ) : IO Unit := do
@@ -13,6 +32,42 @@ def main (args : List String) : IO UInt32 := do
   let stdin ← IO.getStdin
   let stdout ← IO.getStdout
   match args with
-  | ["model", "C06"] => loop stdin stdout C06.step (Tins.DT.Tracker.init 0); return 0
-  | ["spec", "C06"] => loop stdin stdout C06.specStep {}; return 0
-  | _ => IO.eprintln "usage: tinsdriver model|spec <area>"; return 2
+  | ["model", "C01"] => loop stdin stdout C01.step C01.initModel; return 0
+  | ["spec", "C01"] => loop stdin stdout C01.specStep C01.initSpec; return 0
+  | ["model", "C02"] => loop stdin stdout C02.step C02.initModel; return 0
+  | ["spec", "C02"] => loop stdin stdout C02.specStep C02.initSpec; return 0
+  | ["model", "C03"] => loop stdin stdout C03.step C03.initModel; return 0
+  | ["spec", "C03"] => loop stdin stdout C03.specStep C03.initSpec; return 0
+  | ["model", "C04"] => loop stdin stdout C04.step C04.initModel; return 0
+  | ["spec", "C04"] => loop stdin stdout C04.specStep C04.initSpec; return 0
+  | ["model", "C05"] => loop stdin stdout C05.step C05.initModel; return 0
+  | ["spec", "C05"] => loop stdin stdout C05.specStep C05.initSpec; return 0
+  | ["model", "C06"] => loop stdin stdout C06.step C06.initModel; return 0
+  | ["spec", "C06"] => loop stdin stdout C06.specStep C06.initSpec; return 0
+  | ["model", "C07"] => loop stdin stdout C07.step C07.initModel; return 0
+  | ["spec", "C07"] => loop stdin stdout C07.specStep C07.initSpec; return 0
+  | ["model", "C08"] => loop stdin stdout C08.step C08.initModel; return 0
+  | ["spec", "C08"] => loop stdin stdout C08.specStep C08.initSpec; return 0
+  | ["model", "C09"] => loop stdin stdout C09.step C09.initModel; return 0
+  | ["spec", "C09"] => loop stdin stdout C09.specStep C09.initSpec; return 0
+  | ["model", "C10"] => loop stdin stdout C10.step C10.initModel; return 0
+  | ["spec", "C10"] => loop stdin stdout C10.specStep C10.initSpec; return 0
+  | ["model", "C11"] => loop stdin stdout C11.step C11.initModel; return 0
+  | ["spec", "C11"] => loop stdin stdout C11.specStep C11.initSpec; return 0
+  | ["model", "C12"] => loop stdin stdout C12.step C12.initModel; return 0
+  | ["spec", "C12"] => loop stdin stdout C12.specStep C12.initSpec; return 0
+  | ["model", "C13"] => loop stdin stdout C13.step C13.initModel; return 0
+  | ["spec", "C13"] => loop stdin stdout C13.specStep C13.initSpec; return 0
+  | ["model", "C14"] => loop stdin stdout C14.step C14.initModel; return 0
+  | ["spec", "C14"] => loop stdin stdout C14.specStep C14.initSpec; return 0
+  | ["model", "C15"] => loop stdin stdout C15.step C15.initModel; return 0
+  | ["spec", "C15"] => loop stdin stdout C15.specStep C15.initSpec; return 0
+  | ["model", "C16"] => loop stdin stdout C16.step C16.initModel; return 0
+  | ["spec", "C16"] => loop stdin stdout C16.specStep C16.initSpec; return 0
+  | ["model", "C17"] => loop stdin stdout C17.step C17.initModel; return 0
+  | ["spec", "C17"] => loop stdin stdout C17.specStep C17.initSpec; return 0
+  | ["model", "C18"] => loop stdin stdout C18.step C18.initModel; return 0
+  | ["spec", "C18"] => loop stdin stdout C18.specStep C18.initSpec; return 0
+  | ["model", "C19"] => loop stdin stdout C19.step C19.initModel; return 0
+  | ["spec", "C19"] => loop stdin stdout C19.specStep C19.initSpec; return 0
+  | _ => IO.eprintln "usage: tinsdriver model|spec <Cxx>"; return 2
